@@ -42,7 +42,7 @@ class C15(common.SpecCheck):
     QUICK = {"nseeds": 4, "specs": 32, "round": 32, "budget": 0}
     THOROUGH = {"nseeds": 8, "specs": 0, "round": 96, "budget": 1200}
     rule = ("history machine: each unit is one history of 2-12 operations over a pool of 2-4 specifications (the five "
-            "accelerator specs in metrics mode, generated S/O/K/T/A specs in plain mode, and hand-written matmul mappings over the same rank names K/M/N whose partitioning gives those names different roots and levels), run in a pristine child of a "
+            "accelerator specs in metrics mode, generated S/O/K/T/A specs in plain mode, generated class-M specs (synthetic architectures, perturbed accelerators) in metrics mode, and hand-written matmul mappings over the same rank names K/M/N whose partitioning gives those names different roots and levels), run in a pristine child of a "
             "template interpreter per hash seed. Operations: parse, compile on SHARED parsed objects, compile on fresh "
             "objects, and the faults compile_rejected (illegal spec raises, life goes on) and compile_aborted (SimAbort "
             "raised from sys.settrace at the n-th teaal line event; on fresh objects, or on a shared bundle which is then "
@@ -76,9 +76,9 @@ class C15(common.SpecCheck):
                 nm = rng.choice(names)
                 pool.append({"name": nm, "yaml": self.accel[nm], "mode": "metrics", "legal": True})
             else:
-                sp, meta = classes.gen_mixed(rng, [("S", 3), ("O", 3), ("K", 3), ("T", 2), ("A", 1)])
+                sp, meta = classes.gen_mixed(rng, [("S", 3), ("O", 3), ("K", 3), ("T", 3), ("A", 2), ("M", 4)])
                 pool.append({"name": "gen-%s-%s" % (meta["class"], orch.sha(specmod.to_yaml(sp))[:6]),
-                             "yaml": specmod.to_yaml(sp), "mode": "plain", "legal": True})
+                             "yaml": specmod.to_yaml(sp), "mode": meta.get("mode", "plain"), "legal": True})
         if rng.random() < 0.6:
             for nm, y in rng.sample(COLLIDING, rng.randint(1, 2)):
                 pool.insert(rng.randrange(len(pool) + 1), {"name": nm, "yaml": y, "mode": "plain", "legal": True})
